@@ -79,9 +79,14 @@ CachedW(d) == CASE d.k = "nil" -> 0
                 [] d.k = "cell" -> CachedW(d.inner)
                 [] OTHER -> IF HasCap(d, "Width") THEN d.w ELSE LinesMaxW(LinesOf(d))
 
-\* snap: the item as it was when the cell last read it
-MkCell(d) == [item |-> d, snap |-> d, txt |-> TextOf(d), lines |-> LinesOf(d),
-              h |-> CachedH(d), w |-> CachedW(d), props |-> EmptyMap]
+\* snap: the item as it was when the cell last read it; iid: identity of the item object (by-value
+\* copies of a cell hold the same object, so a mutation of the item is seen through all of them)
+MkCellI(d, iid) == [item |-> d, snap |-> d, txt |-> TextOf(d), lines |-> LinesOf(d),
+                    h |-> CachedH(d), w |-> CachedW(d), props |-> EmptyMap, iid |-> iid]
+MkCell(d) == MkCellI(d, <<>>)
+\* the cells of one call: the item of the i-th cell gets the identity pre \o <<i>> (pre names the row
+\* object, or the table and the how-manieth header it is)
+MkCells(items, pre) == [i \in 1..Len(items) |-> MkCellI(items[i], Append(pre, i))]
 
 \* re-read the (possibly mutated) item, keep everything else
 UpdateCell(c) == [c EXCEPT !.snap = c.item, !.txt = TextOf(c.item), !.lines = LinesOf(c.item),
@@ -149,12 +154,13 @@ AgreeMetrics(parts, m) ==
 
 InitState == [tbl |-> <<>>, row |-> <<>>, ec |-> <<>>, cb |-> <<>>,
               cv |-> <<>>, hd |-> <<>>, wr |-> <<>>,
+              rendered |-> FALSE,   \* has any renderer run (they leave private measuring keys on the cells)
               reg |-> <<>>,     \* the decoration registry as this scenario sees it (name -> decoration)
               defdec |-> <<>>]  \* the decoration a new text wrapper starts with
 
 NewColumn == [props |-> EmptyMap]
 
-NewTableRec == [rows |-> <<>>, hdrp |-> FALSE, hdr |-> <<>>, hdrMax |-> 0,
+NewTableRec == [rows |-> <<>>, hdrp |-> FALSE, hdr |-> <<>>, hdrMax |-> 0, hgen |-> 0,
                 ncols |-> 0, errs |-> <<>>, props |-> EmptyMap,
                 cols |-> <<NewColumn>>]      \* cols[n+1] is column n, n \in 0..ncols
 
@@ -183,7 +189,7 @@ Supported(okind, target) ==
   \/ okind = "table"  /\ target \in {"itself", "cell", "row"}
   \/ okind = "column" /\ target \in {"itself", "cell"}
   \/ okind = "row"    /\ target \in {"itself", "row", "cell"}
-  \/ okind \in {"cell", "hcell"} /\ target \in {"itself", "cell"}
+  \/ okind \in {"cell", "hcell", "cellvar"} /\ target \in {"itself", "cell"}
 
 Slot(okind, oa, ob, time, targets, kind, a, b, req, impl) ==
   [okind |-> okind, oa |-> oa, ob |-> ob, time |-> time, targets |-> targets,
@@ -218,11 +224,13 @@ SlotsRowAdd(st, r, c) ==
 \* AddRow(t, r): table row callbacks on the row, then per cell the column and table
 \* cell callbacks.  The row's own "itself" list at add time is optional.
 SlotsAddRow(st, t, r) ==
+  LET first == st.row[r].tbl = 0    \* adding a row that already is in a table again: the statement is silent
+  IN
   << Slot("row", r, 0, "add", {"itself", "row"}, "row", r, 0, FALSE, TRUE),
-     Slot("table", t, 0, "add", {"row"}, "row", r, 0, TRUE, TRUE) >>
+     Slot("table", t, 0, "add", {"row"}, "row", r, 0, first, TRUE) >>
   \o Flatten([c \in 1..Len(st.row[r].cells) |->
-       << Slot("column", t, c, "add", {"cell"}, "cell", r, c, TRUE, TRUE),
-          Slot("table", t, 0, "add", {"cell"}, "cell", r, c, TRUE, TRUE) >>])
+       << Slot("column", t, c, "add", {"cell"}, "cell", r, c, first, TRUE),
+          Slot("table", t, 0, "add", {"cell"}, "cell", r, c, first, TRUE) >>])
 
 \* AddHeaders(t): everything optional (the statement speaks of rows added to the table)
 SlotsHeaders(st, t, n) ==
@@ -276,21 +284,27 @@ KnownSig(okind, time, target) ==
   \/ okind = "row"    /\ <<time, target>> \in {<<"add", "cell">>, <<"add", "itself">>, <<"add", "row">>,
                                                  <<"pre", "itself">>, <<"pre", "row">>, <<"post", "itself">>, <<"post", "row">>,
                                                  <<"pre", "cell">>, <<"post", "cell">>}
-  \/ okind \in {"cell", "hcell"} /\ <<time, target>> \in {<<"render", "itself">>, <<"render", "cell">>}
+  \/ okind \in {"cell", "hcell", "cellvar"} /\ <<time, target>> \in {<<"render", "itself">>, <<"render", "cell">>}
 
-\* C13 relation between the expected events of a call and the observed log
+\* C13 relation between the expected events of a call and the observed log.  An event may be
+\* expected more than once in one call only when its target is listed more than once (a row added to
+\* the table twice): "exactly once per matching target" then means once per listing.
+CountIn(seq, x) == Cardinality({i \in DOMAIN seq : seq[i] = x})
+
 AgreeCbLog(st, slots, log) ==
   LET exp == SlotEvents(st, slots)
       expEv == {exp[i].ev : i \in DOMAIN exp}
+      nExp(ev) == Cardinality({i \in DOMAIN exp : exp[i].ev = ev})
+      nReq(ev) == Cardinality({i \in DOMAIN exp : exp[i].ev = ev /\ exp[i].req})
       slotOf(ev) == (CHOOSE i \in DOMAIN exp : exp[i].ev = ev)
       Unmentioned(cb) == LET r == st.cb[cb] IN r.ok /\ ~KnownSig(r.okind, r.time, r.target)
-  IN /\ \A i, j \in DOMAIN log : i # j => log[i] # log[j]                 \* never twice
-     /\ \A i \in DOMAIN exp : exp[i].req => Has(log, exp[i].ev)          \* required: exactly once
+      single(ev) == ev \in expEv /\ nExp(ev) = 1
+  IN /\ \A ev \in expEv : CountIn(log, ev) <= nExp(ev) /\ CountIn(log, ev) >= nReq(ev)   \* once per listing
      /\ \A i \in DOMAIN log :                                           \* nothing unexpected
           \/ log[i] \in expEv
-          \/ (log[i][1] \in DOMAIN st.cb /\ Unmentioned(log[i][1]))
+          \/ (log[i][1] \in DOMAIN st.cb /\ Unmentioned(log[i][1]) /\ CountIn(log, log[i]) = 1)
      /\ \A i, j \in DOMAIN log :                                        \* documented nesting order
-          (i < j /\ log[i] \in expEv /\ log[j] \in expEv)
+          (i < j /\ single(log[i]) /\ single(log[j]))
              => exp[slotOf(log[i])].slot <= exp[slotOf(log[j])].slot
 
 \* which clause of the relation fails, and for which events (for the report)
@@ -300,8 +314,12 @@ ExplainCbLog(st, slots, log) ==
       slotOf(ev) == (CHOOSE i \in DOMAIN exp : exp[i].ev = ev)
       sig(cb) == IF cb \in DOMAIN st.cb THEN <<st.cb[cb].okind, st.cb[cb].time, st.cb[cb].target>> ELSE <<"?">>
       Unmentioned(cb) == LET r == st.cb[cb] IN r.ok /\ ~KnownSig(r.okind, r.time, r.target)
-  IN [twice   |-> {<<sig(log[i][1]), log[i][2]>> : i \in {k \in DOMAIN log : \E j \in DOMAIN log : j # k /\ log[j] = log[k]}},
-      missing |-> {<<sig(exp[i].ev[1]), exp[i].ev[2]>> : i \in {k \in DOMAIN exp : exp[k].req /\ ~Has(log, exp[k].ev)}},
+  IN [twice   |-> {<<sig(log[i][1]), log[i][2]>> :
+                     i \in {k \in DOMAIN log : CountIn(log, log[k]) > Cardinality({x \in DOMAIN exp : exp[x].ev = log[k]})
+                                                /\ CountIn(log, log[k]) > 1}},
+      missing |-> {<<sig(exp[i].ev[1]), exp[i].ev[2]>> :
+                     i \in {k \in DOMAIN exp : exp[k].req /\ CountIn(log, exp[k].ev)
+                                                   < Cardinality({x \in DOMAIN exp : exp[x].ev = exp[k].ev /\ exp[x].req})}},
       unexpected |-> {<<sig(log[i][1]), log[i][2]>> :
                         i \in {k \in DOMAIN log : log[k] \notin expEv
                                  /\ ~(log[k][1] \in DOMAIN st.cb /\ Unmentioned(log[k][1]))}},
@@ -383,8 +401,15 @@ DoHeaders(st, op, fired) ==
   LET t == op.t
       n == Len(op.items)
       T0 == GrowCols(st.tbl[t], n)
-      T1 == [T0 EXCEPT !.hdrp = TRUE, !.hdr = SeqMap(MkCell, op.items), !.hdrMax = Max2(@, n)]
-  IN Fire([st EXCEPT !.tbl[t] = T1], t, 0, fired)
+      T1 == [T0 EXCEPT !.hdrp = TRUE, !.hdr = MkCells(op.items, <<"h", t, T0.hgen + 1>>), !.hdrMax = Max2(@, n),
+                       !.hgen = @ + 1]
+      \* the previous header cells are gone, and with them the callbacks registered on them (copies of
+      \* those cells that were added to rows keep theirs)
+      gone(i) == st.cb[i].okind = "hcell" /\ st.cb[i].oa = t
+      cb1 == [i \in DOMAIN st.cb |->
+                [ (IF gone(i) THEN [st.cb[i] EXCEPT !.okind = "gone"] ELSE st.cb[i])
+                  EXCEPT !.also = {x \in @ : ~(x[1] = "hcell" /\ x[2] = t)} ]]
+  IN Fire([st EXCEPT !.tbl[t] = T1, !.cb = cb1], t, 0, fired)
 
 \* attach row object r (already in st.row) to table t.  A row that already is in a
 \* table may be added again (to the same or another table): it is listed once more,
@@ -400,7 +425,7 @@ Attach(st, t, r) ==
 
 DoRowItems(st, op, fired) ==
   LET r == Len(st.row) + 1
-      R == [NewRowRec(FALSE) EXCEPT !.cells = SeqMap(MkCell, op.items)]
+      R == [NewRowRec(FALSE) EXCEPT !.cells = MkCells(op.items, <<"r", r>>)]
       s1 == [st EXCEPT !.row = Append(@, R)]
   IN Fire(Attach(s1, op.t, r), op.t, r, fired)
 
@@ -417,6 +442,11 @@ DoAppendRow(st, op, fired) ==
 
 DoNewRow(st, op) == [st EXCEPT !.row = Append(@, NewRowRec(FALSE))]
 
+\* every table that lists row r becomes at least n columns wide (a row may have been added to
+\* more than one table)
+GrowTablesOf(st, r, n) ==
+  [st EXCEPT !.tbl = [t \in DOMAIN st.tbl |-> IF Has(st.tbl[t].rows, r) THEN GrowCols(st.tbl[t], n) ELSE st.tbl[t]]]
+
 \* Row.Add: a separator refuses the cell and the misuse is an error of the row
 \* (hence of its table once it is in one); otherwise the cell is appended and a
 \* row that is already in a table makes the table at least that wide.
@@ -425,9 +455,8 @@ DoRowAdd(st, op, fired) ==
       R == st.row[r]
   IN IF R.sep THEN Raise(st, R.tbl, r, Err("LIB", "lib"))
      ELSE LET n == Len(R.cells) + 1
-              s1 == [st EXCEPT !.row[r].cells = Append(@, MkCell(op.item))]
-              s2 == IF R.tbl = 0 THEN s1 ELSE [s1 EXCEPT !.tbl[R.tbl] = GrowCols(@, n)]
-          IN Fire(s2, R.tbl, r, fired)
+              s1 == [st EXCEPT !.row[r].cells = Append(@, MkCellI(op.item, <<"r", r, n>>))]
+          IN Fire(GrowTablesOf(s1, r, n), R.tbl, r, fired)
 
 \* Row.Add as it was found (defect D2): the table is not told about a cell added to a row that is
 \* already in it.  Kept so that the bounded model can show the consequence (bin/selftest runs MCGrid
@@ -484,7 +513,14 @@ CellAtRef(st, o) ==
 \* source's item, text and properties (an independent map from then on) and
 \* carries the source's callback registrations as well
 RefTriple(o) ==
-  CASE o.kind = "cell" -> <<"cell", o.r, o.c>> [] o.kind = "hcell" -> <<"hcell", o.t, o.c>> [] OTHER -> <<o.kind, 0, 0>>
+  CASE o.kind = "cell" -> <<"cell", o.r, o.c>> [] o.kind = "hcell" -> <<"hcell", o.t, o.c>>
+    [] o.kind = "cellvar" -> <<"cellvar", o.v, 0>> [] OTHER -> <<o.kind, 0, 0>>
+
+\* the registrations carried by cell `src` are also carried by its copy `new`
+CarryRegs(cb, src, new) ==
+  [i \in DOMAIN cb |->
+     IF (cb[i].okind = src[1] /\ cb[i].oa = src[2] /\ cb[i].ob = src[3]) \/ src \in cb[i].also
+     THEN [cb[i] EXCEPT !.also = @ \cup {new}] ELSE cb[i]]
 
 DoRowAddCell(st, op, fired) ==
   LET r == op.r
@@ -493,14 +529,14 @@ DoRowAddCell(st, op, fired) ==
      ELSE LET n == Len(R.cells) + 1
               src == RefTriple(op.from)
               s1 == [st EXCEPT !.row[r].cells = Append(@, CellAtRef(st, op.from)),
-                               !.cb = [i \in DOMAIN st.cb |->
-                                         IF (st.cb[i].okind = src[1] /\ st.cb[i].oa = src[2] /\ st.cb[i].ob = src[3]) \/ src \in st.cb[i].also
-                                         THEN [st.cb[i] EXCEPT !.also = @ \cup {<<"cell", r, n>>}] ELSE st.cb[i]]]
+                               !.cb = CarryRegs(st.cb, src, <<"cell", r, n>>)]
               s2 == IF R.tbl = 0 THEN s1 ELSE [s1 EXCEPT !.tbl[R.tbl] = GrowCols(@, n)]
           IN Fire(s2, R.tbl, r, fired)
 
-\* a by-value copy of a cell: an independent owner from then on
-DoCopyCell(st, op) == [st EXCEPT !.cv = Append(@, CellAtRef(st, op.from))]
+\* a by-value copy of a cell: an independent owner from then on; it carries the source's callbacks
+DoCopyCell(st, op) ==
+  [st EXCEPT !.cv = Append(@, CellAtRef(st, op.from)),
+             !.cb = CarryRegs(st.cb, RefTriple(op.from), <<"cellvar", Len(st.cv) + 1, 0>>)]
 
 \* a column handle keeps addressing column n of table t for ever
 DoTakeCol(st, op) == [st EXCEPT !.hd = Append(@, [t |-> op.t, n |-> op.n])]
@@ -511,6 +547,7 @@ OwnerTriple(o) ==
     [] o.kind = "row"     -> <<"row", o.r, 0>>
     [] o.kind = "cell"    -> <<"cell", o.r, o.c>>
     [] o.kind = "hcell"   -> <<"hcell", o.t, o.c>>
+    [] o.kind = "cellvar" -> <<"cellvar", o.v, 0>>
     [] OTHER -> <<o.kind, 0, 0>>
 
 RegOk(op) == Supported(op.owner.kind, op.target)
@@ -528,15 +565,22 @@ SetCellAtRef(st, o, c) ==
     [] o.kind = "hcell"   -> [st EXCEPT !.tbl[o.t].hdr[o.c] = c]
     [] o.kind = "cellvar" -> [st EXCEPT !.cv[o.v] = c]
 
-\* the item is mutated behind the cell's back: the cell keeps its text
-DoMutate(st, op) == SetCellAtRef(st, op.cell, [CellAtRef(st, op.cell) EXCEPT !.item = op.item])
+\* the item is mutated behind the cells' backs: every cell holding that object (the cell referred to and
+\* its by-value copies) now has the new item, and every one of them keeps its text until it is updated
+DoMutate(st, op) ==
+  LET id == CellAtRef(st, op.cell).iid
+      upd(c) == IF c.iid = id /\ id # <<>> THEN [c EXCEPT !.item = op.item] ELSE c
+      s1 == [st EXCEPT !.row = [r \in DOMAIN st.row |-> [st.row[r] EXCEPT !.cells = SeqMap(upd, @)]],
+                       !.tbl = [t \in DOMAIN st.tbl |-> [st.tbl[t] EXCEPT !.hdr = SeqMap(upd, @)]],
+                       !.cv = SeqMap(upd, st.cv)]
+  IN SetCellAtRef(s1, op.cell, [CellAtRef(s1, op.cell) EXCEPT !.item = op.item])
 DoUpdate(st, op) == SetCellAtRef(st, op.cell, UpdateCell(CellAtRef(st, op.cell)))
 
 \* the slots (expected callback events) of a call
 SlotsOf(st, op) ==
   CASE op.op = "headers"   -> SlotsHeaders(st, op.t, Len(op.items))
     [] op.op = "rowitems"  -> LET r == Len(st.row) + 1
-                                  s1 == [st EXCEPT !.row = Append(@, [NewRowRec(FALSE) EXCEPT !.cells = SeqMap(MkCell, op.items)])]
+                                  s1 == [st EXCEPT !.row = Append(@, [NewRowRec(FALSE) EXCEPT !.cells = MkCells(op.items, <<"r", r>>)])]
                               IN SlotsAddRow(s1, op.t, r)
     [] op.op = "appendrow" -> LET r == Len(st.row) + 1
                                   s1 == [st EXCEPT !.row = Append(@, NewRowRec(FALSE))]
